@@ -196,8 +196,57 @@ def window_case(draw):
     return dict(part="windows", desc=draw(e2e.window_structure()), ff=draw(st.sampled_from(strat.FFS)), opts=list(mode), wild=False)
 
 
+def check_na(case):
+    """Hydrogens added to nucleotides (template nucleotides in, so every local frame is ideal)."""
+    res = Result()
+    desc, ff, opts = case["desc"], case["ff"], case["opts"]
+    s, r = e2e.run_case(desc, ff, opts)
+    res.label(f"ff={ff}", *("dna" if x["dna"] else "rna" for x in desc["na"]))
+    if not r.ok:
+        res.label("run-failed")
+        return res
+    A = e2e.analyse(desc, ff, opts, s, r)
+    norm = {"OP1": "O1P", "OP2": "O2P"}
+    nadded = 0
+    for meta in s.strands:
+        for i, letter in enumerate(meta["seq"]):
+            g = ("na", meta["index"], i)
+            entry = A.by_group.get(g)
+            if entry is None:
+                continue
+            exp = topo.expected_na(letter, meta["dna"], i == 0, i == meta["n"] - 1)
+            tmpl, bonds = exp["tmpl"], exp["bonds"]
+            out = {norm.get(k, k): np.array(a.coords) for k, a in entry["atoms"].items()}
+            inp = {norm.get(k, k) for k in A.inp[g]}
+            for x in out:
+                if x in inp or x not in tmpl:
+                    continue
+                nadded += 1
+                for p in bonds.get(x, []):
+                    if p not in out or p not in tmpl:
+                        continue
+                    d, d0 = geom.dist(out[x], out[p]), geom.dist(tmpl[x], tmpl[p])
+                    if abs(d - d0) > TOL_LEN:
+                        res.bad("C05:na:bond-length", f"{exp['name']}: {x}-{p} {d:.3f} A, template {d0:.3f} A ({ff})")
+                        continue
+                    for q in bonds.get(p, []):
+                        if q == x or q not in out or q not in tmpl or (q not in inp and q > x):
+                            continue
+                        a, a0 = geom.angle(out[x], out[p], out[q]), geom.angle(tmpl[x], tmpl[p], tmpl[q])
+                        if abs(a - a0) > TOL_ANG:
+                            res.bad("C05:na:bond-angle", f"{exp['name']}: angle {x}-{p}-{q} {a:.1f} deg, template {a0:.1f} ({ff})")
+                for y, py in out.items():
+                    if y != x and geom.dist(out[x], py) < 0.5:
+                        res.bad("C05:na:coincide", f"{exp['name']}: added {x} is {geom.dist(out[x], py):.2f} A from {y}")
+    res.nontrivial = nadded > 0
+    return res
+
+
 def parts(tier):
+    from . import c02
+
     return [
+        Part("na", check_na, strategy=c02.na_case().map(lambda c: dict(c, part="na")), budget=dict(quick=160, thorough=3000)),
         Part("e2e", check, strategy=case(), budget=dict(quick=640, thorough=12000)),
         Part("windows", check, strategy=window_case(), budget=dict(quick=240, thorough=5000)),
     ]
